@@ -238,6 +238,44 @@ func capsSession(r *rand.Rand, wd int, version string, lean bool) Session {
 func newSessionCaps(r *rand.Rand, kind, version string, force, header bool, wd int, lean bool) Session {
 	s := Session{Kind: kind, Version: version, Via: []string{"caps", "preferred"}[r.Intn(2)], Force: force, Header: header, Seg: genSeg(r)}
 	s.Caps, s.WD = genCaps(r, wd, lean)
+	s.Log = []string{"", "", "debug", "debug", "info", "critical"}[r.Intn(6)]
+	return s
+}
+
+// logSession: a real logging instance at the given level, requests whose frames are longer than
+// 1024 and than 8192 bytes (and short ones) through every method that carries caller content.
+func logSession(r *rand.Rand, level, version string) Session {
+	s := newSession(r, "log", version, r.Intn(2) == 0, r.Intn(2) == 0)
+	s.Log = level
+	g := &xg{r: r, mb: r.Intn(3) != 0, eom: s.Version == "1.1"}
+	long := func(min int) string {
+		var b strings.Builder
+		for b.Len() < min {
+			b.WriteString(pickS(r, []string{"/interfaces/interface[name='ge-0/0/", "é→", "0123456789", "label-", "#"}) + fmt.Sprint(r.Intn(1000)) + "']")
+		}
+		return b.String()
+	}
+	for _, min := range []int{1100, 8300} {
+		for _, sh := range []string{"get-subtree", "get-config-subtree", "edit-config", "rpc"} {
+			q := genReq(r, g, sh)
+			q.Arg = bigArg(r, min+r.Intn(600))
+			if sh == "edit-config" {
+				q.Arg.Pre = "<config>" + q.Arg.Pre
+				q.Arg.Post += "</config>"
+			}
+			s.Reqs = append(s.Reqs, q)
+		}
+		q := genReq(r, g, "get-xpath")
+		q.Arg = lit(long(min))
+		s.Reqs = append(s.Reqs, q)
+		q = genReq(r, g, "commit-persist")
+		q.Persist = long(min)
+		s.Reqs = append(s.Reqs, q)
+	}
+	for i := 0; i < 4; i++ {
+		s.Reqs = append(s.Reqs, genReq(r, g, shapes[r.Intn(len(shapes))]))
+	}
+	r.Shuffle(len(s.Reqs), func(i, j int) { s.Reqs[i], s.Reqs[j] = s.Reqs[j], s.Reqs[i] })
 	return s
 }
 
@@ -560,9 +598,9 @@ func aliasSession(r *rand.Rand, k int) Session {
 // Gen is the case list: a pure function of (tier, seed).
 func Gen(tier string, seed int64) []mon.Case {
 	r := rand.New(rand.NewSource(seed*104729 + 3))
-	nGrid, nSweep, nRandom, nBig, nNoAns, nCaps, nStall, nAlias := 4, 2, 150, 8, 24, 1, 2, 24
+	nGrid, nSweep, nRandom, nBig, nNoAns, nCaps, nStall, nAlias, nLog := 4, 2, 150, 8, 24, 1, 2, 24, 1
 	if tier == "thorough" {
-		nGrid, nSweep, nRandom, nBig, nNoAns, nCaps, nStall, nAlias = 40, 12, 9000, 128, 400, 6, 12, 400
+		nGrid, nSweep, nRandom, nBig, nNoAns, nCaps, nStall, nAlias, nLog = 40, 12, 9000, 128, 400, 6, 12, 400, 10
 	}
 	var ss []Session
 	for round := 0; round < nGrid; round++ {
@@ -606,6 +644,13 @@ func Gen(tier string, seed int64) []mon.Case {
 					continue // a 1.0 request is two writes
 				}
 				ss = append(ss, stallSession(r, v, k, round+k))
+			}
+		}
+	}
+	for round := 0; round < nLog; round++ {
+		for _, lv := range []string{"debug", "info", "critical"} {
+			for _, v := range []string{"1.0", "1.1"} {
+				ss = append(ss, logSession(r, lv, v))
 			}
 		}
 	}
